@@ -165,11 +165,15 @@ if __name__ == '__main__':
     elif a[0] == 'eval':
         tier = 'quick'
         allc = False
+        seeds = (0,)
         rest = []
         i = 1
         while i < len(a):
             if a[i] == '--tier':
                 tier = a[i + 1]
+                i += 2
+            elif a[i] == '--seed':
+                seeds = (int(a[i + 1]),)
                 i += 2
             elif a[i] == '--all-checks':
                 allc = True
@@ -178,6 +182,6 @@ if __name__ == '__main__':
                 rest.append(a[i])
                 i += 1
         for n in names(rest):
-            evaluate(n, tier, allc)
+            evaluate(n, tier, allc, seeds)
     elif a[0] == 'table':
         table()
